@@ -121,6 +121,10 @@ where
 
     // Write the restriction check
     write_check_restrictions_header(writer, rust_name, restrictions)?;
+    if restrictions.is_some() {
+        // the facets handed down by a simple type derived from this one apply in addition to this type's own
+        writeln!(writer, "     self.value.check_restrictions(_restrictions)?;")?;
+    }
     writeln!(writer, "     self.value.check_restrictions(restrictions)")?;
     write_check_restrictions_footer(writer)?;
 
